@@ -860,7 +860,12 @@ class Interp(object):
             dout = Seq(smt.fresh_arr('dout'), z3.IntVal(0), 'list', 'Ghost')
             ctx.out = dout
             ctx.in_iteration = (label, SInt(k))
-            x = bi.next_(self, it, node)
+            try:
+                x = bi.next_(self, it, node)
+            except PyExc:
+                ctx.failed_segment = (label, dout)
+                ctx.out = Seq(smt.fresh_arr('after_exc'), z3.IntVal(0), 'list', 'Ghost')
+                raise
             self.assign(node.target, x, env)
             st = LoopState(self, env, SInt(k))
             st.k0 = SInt(k0)
@@ -873,6 +878,11 @@ class Interp(object):
                 pass
             except _Break:
                 raise Unsupported('break inside a loop verified by the stateless-body rule at %s' % self.where(node))
+            except PyExc:
+                # the iteration is cut short: what an enclosing handler yields from here on goes to a new segment
+                ctx.failed_segment = (label, dout)
+                ctx.out = Seq(smt.fresh_arr('after_exc'), z3.IntVal(0), 'list', 'Ghost')
+                raise
             spec.delta(st, x, dout)
             if spec.invariant is not None:
                 st2 = LoopState(self, env, SInt(base.pos))
